@@ -28,6 +28,7 @@ EXPLANATION = (
     "write to E/K/n outside the constructor is followed on every path by a rebuild of the cached Ramberg-Osgood object. "
     "R-C06-7: helpers duplicated across the two law classes are identical, each secondary-branch helper is its primary "
     "sibling under the Masing substitution (strain -> delta_strain, ...), and the two copies of the base class agree.")
+EXPLANATION += (" R-C06-8: the fprime handed to Newton equals d func / d unknown in normal form (symbolic differentiation, calls on the cached Ramberg-Osgood object evaluated on that class with the law's E, K, n; positive branch, the negative one follows from parity and the pole guards); every where= mask of a quotient excludes exactly its pole; the Ramberg-Osgood object is built from (E, K, n) in that order.")
 ASSUMPTIONS = ["scipy.optimize.newton(func, x0, fprime, args, rtol, tol, full_output) semantics",
                "RambergOsgood.strain/delta_strain are odd (C16)"]
 
